@@ -622,4 +622,148 @@ theorem DefinedAt.of_transMap {T : Transform α} {T' : Transform β} {f : α →
 
 end
 
+/-! ### operands over different element types (`FF: Mul<FF2>`) -/
+section Mixed
+variable {α₁ α₂ α₃ β₁ β₂ β₃ : Type}
+variable {F1 : FieldOps α₁} {F2 : FieldOps α₂} {F3 : FieldOps α₃}
+variable {G1 : FieldOps β₁} {G2 : FieldOps β₂} {G3 : FieldOps β₃}
+variable {f1 : α₁ → β₁} {f2 : α₂ → β₂} {f3 : α₃ → β₃}
+variable {ok1 : α₁ → Prop} {ok2 : α₂ → Prop} {ok3 : α₃ → Prop}
+variable {mul : α₁ → α₂ → α₃} {mul' : β₁ → β₂ → β₃}
+
+theorem mulRowsG_map (H3 : OpsMap F3 G3 f3 ok3) (hmul : ∀ x y, f3 (mul x y) = mul' (f1 x) (f2 y))
+    (a : List α₁) (b : List α₂) :
+    (mulRows F3 mul a b).map f3 = mulRows G3 mul' (a.map f1) (b.map f2) := by
+  induction a with
+  | nil => rfl
+  | cons a0 as ih =>
+    cases as with
+    | nil => simp [mulRows, hmul]
+    | cons a1 as =>
+      simp only [mulRows, List.map_cons]
+      rw [zipLongestWith_map F3.add id G3.add id H3.add (fun _ => rfl)]
+      simp only [List.map_cons, List.map_map, H3.zero]
+      rw [← List.map_cons, ← ih]
+      congr 1
+      apply List.map_congr_left
+      intro x _
+      simp [hmul]
+
+theorem mulRowsG_ok (H3 : OpsMap F3 G3 f3 ok3) (hok : ∀ x y, ok3 (mul x y)) (a : List α₁) (b : List α₂) :
+    AllOk ok3 (mulRows F3 mul a b) := by
+  induction a with
+  | nil => exact allOk_nil ok3
+  | cons a0 as ih =>
+    cases as with
+    | nil =>
+      intro z hz
+      simp only [mulRows, List.mem_map] at hz
+      obtain ⟨y, _, rfl⟩ := hz
+      exact hok _ _
+    | cons a1 as =>
+      simp only [mulRows]
+      apply zipLongestWith_ok F3.add id H3.ok_add
+      · intro z hz
+        simp only [List.mem_map] at hz
+        obtain ⟨y, _, rfl⟩ := hz
+        exact hok _ _
+      · intro y hy
+        simp only [List.mem_cons] at hy
+        rcases hy with rfl | hy
+        · exact H3.ok_zero
+        · exact ih y hy
+
+theorem naiveMultiplyG_map (H1 : OpsMap F1 G1 f1 ok1) (H2 : OpsMap F2 G2 f2 ok2) (H3 : OpsMap F3 G3 f3 ok3)
+    (hmul : ∀ x y, f3 (mul x y) = mul' (f1 x) (f2 y)) (a : List α₁) (b : List α₂)
+    (ha : AllOk ok1 a) (hb : AllOk ok2 b) :
+    (naiveMultiplyG F1 F2 F3 mul a b).map f3 = naiveMultiplyG G1 G2 G3 mul' (a.map f1) (b.map f2) := by
+  unfold naiveMultiplyG
+  rw [← normalize_map H1 a ha, ← normalize_map H2 b hb]
+  cases hna : normalize F1 a with
+  | nil => rfl
+  | cons x xs =>
+    cases hnb : normalize F2 b with
+    | nil => rfl
+    | cons y ys =>
+      simp only [List.map_cons]
+      have := mulRowsG_map (f1 := f1) (f2 := f2) H3 hmul (x :: xs) (y :: ys)
+      simpa using this
+
+theorem naiveMultiplyG_ok (H3 : OpsMap F3 G3 f3 ok3) (hok : ∀ x y, ok3 (mul x y)) (a : List α₁) (b : List α₂) :
+    AllOk ok3 (naiveMultiplyG F1 F2 F3 mul a b) := by
+  unfold naiveMultiplyG
+  split
+  · exact allOk_nil ok3
+  · exact allOk_nil ok3
+  · exact mulRowsG_ok H3 hok _ _
+
+variable {T1 : Transform α₁} {T2 : Transform α₂} {T3 : Transform α₃}
+variable {T1' : Transform β₁} {T2' : Transform β₂} {T3' : Transform β₃}
+
+theorem fastMultiplyG_map (H1 : OpsMap F1 G1 f1 ok1) (H2 : OpsMap F2 G2 f2 ok2)
+    (M1 : TransMap T1 T1' f1 ok1) (M2 : TransMap T2 T2' f2 ok2) (M3 : TransMap T3 T3' f3 ok3)
+    (hmul : ∀ x y, f3 (mul x y) = mul' (f1 x) (f2 y)) (a : List α₁) (b : List α₂)
+    (ha : AllOk ok1 a) (hb : AllOk ok2 b) :
+    (fastMultiplyG F1 F2 mul T1 T2 T3 a b).map (List.map f3)
+      = fastMultiplyG G1 G2 mul' T1' T2' T3' (a.map f1) (b.map f2) := by
+  unfold fastMultiplyG
+  simp only [degree_map H1 a ha, degree_map H2 b hb, ← resize_map H1, ← resize_map H2, ← M1.ntt, ← M2.ntt]
+  split
+  · rfl
+  · cases T1.ntt (resize a _ F1.zero) with
+    | none => rfl
+    | some l =>
+      cases T2.ntt (resize b _ F2.zero) with
+      | none => rfl
+      | some r =>
+        have hz : List.zipWith mul' (l.map f1) (r.map f2) = (List.zipWith mul l r).map f3 := by
+          rw [List.zipWith_map, List.map_zipWith]
+          congr 1; funext x y; exact (hmul x y).symm
+        simp only [Option.map_some, Option.bind_eq_bind, Option.bind_some, hz, ← M3.intt]
+        cases T3.intt (List.zipWith mul l r) with
+        | none => rfl
+        | some c => simp [List.map_take]
+
+theorem fastMultiplyG_ok (M3 : TransMap T3 T3' f3 ok3) (a : List α₁) (b : List α₂) (r : List α₃)
+    (h : fastMultiplyG F1 F2 mul T1 T2 T3 a b = some r) : AllOk ok3 r := by
+  unfold fastMultiplyG at h
+  simp only at h
+  split at h
+  · cases h; exact allOk_nil ok3
+  · generalize nextPowerOfTwo ((degree F1 a + degree F2 b).toNat + 1) = n at h
+    cases hl : T1.ntt (resize a n F1.zero) with
+    | none => simp [hl] at h
+    | some l =>
+      cases hr : T2.ntt (resize b n F2.zero) with
+      | none => simp [hl, hr] at h
+      | some rr =>
+        cases hc : T3.intt (List.zipWith mul l rr) with
+        | none => simp [hl, hr, hc] at h
+        | some c =>
+          simp [hl, hr, hc] at h
+          subst h
+          exact fun x hx => M3.ok_intt _ _ hc x (List.mem_of_mem_take hx)
+
+theorem multiplyG_map (H1 : OpsMap F1 G1 f1 ok1) (H2 : OpsMap F2 G2 f2 ok2) (H3 : OpsMap F3 G3 f3 ok3)
+    (M1 : TransMap T1 T1' f1 ok1) (M2 : TransMap T2 T2' f2 ok2) (M3 : TransMap T3 T3' f3 ok3)
+    (hmul : ∀ x y, f3 (mul x y) = mul' (f1 x) (f2 y)) (threshold : Int) (a : List α₁) (b : List α₂)
+    (ha : AllOk ok1 a) (hb : AllOk ok2 b) :
+    (multiplyG F1 F2 F3 mul threshold T1 T2 T3 a b).map (List.map f3)
+      = multiplyG G1 G2 G3 mul' threshold T1' T2' T3' (a.map f1) (b.map f2) := by
+  unfold multiplyG
+  rw [degree_map H1 a ha, degree_map H2 b hb]
+  split
+  · simp [naiveMultiplyG_map H1 H2 H3 hmul a b ha hb]
+  · exact fastMultiplyG_map H1 H2 M1 M2 M3 hmul a b ha hb
+
+theorem multiplyG_ok (H3 : OpsMap F3 G3 f3 ok3) (M3 : TransMap T3 T3' f3 ok3) (hok : ∀ x y, ok3 (mul x y))
+    (threshold : Int) (a : List α₁) (b : List α₂) (r : List α₃)
+    (h : multiplyG F1 F2 F3 mul threshold T1 T2 T3 a b = some r) : AllOk ok3 r := by
+  unfold multiplyG at h
+  split at h
+  · cases h; exact naiveMultiplyG_ok H3 hok a b
+  · exact fastMultiplyG_ok M3 a b r h
+
+end Mixed
+
 end TF.Model.Poly.Hom
